@@ -352,6 +352,14 @@ func (gen *filterGen) Type(typ types.Type) string {
 	switch t := typ.(type) {
 	case *types.Array:
 		return `[` + strconv.FormatInt(t.Len(), 10) + `]` + gen.Type(t.Elem())
+	case *types.Basic:
+		// byte and rune are aliases of uint8 and int32 with their own *types.Basic:
+		// name them like the types they stand for, so that F[rune] and F[int32]
+		// (one instance) get one name.
+		if k := t.Kind(); k > types.Invalid && int(k) < len(types.Typ) {
+			return types.Typ[k].String()
+		}
+		return t.String()
 	case *types.Chan:
 		return `chan ` + gen.Type(t.Elem())
 	case *types.Interface:
